@@ -29,7 +29,7 @@ def _work(args):
 def run(tier):
     run = Run('C11', tier, level='translation_validation')
     from harness import c11lib
-    R, D = (2, 3) if tier == 'quick' else (3, 3)
+    R, D = (3, 3) if tier == 'quick' else (4, 3)
     run.bounds = {'rows_per_table_max': R, 'value_range': [0, D], 'family_members': len(c11lib.FAMILY), 'schema': c11lib.SCHEMA}
     run.functions = ['plan_query -> QueryPlanner.from_query/check_single_integration/prepare_integration_select (real, per member)',
                      'the emitted FetchDataframeStep.query (interpreted by SYMREL)']
